@@ -25,6 +25,8 @@ package main
 
 //@ func sortAuditInfosByStartTime(auditInfosByID) (res)
 //@   props C20
+//@   replay pure
+//@   replaycheck in-start-time-order[C20]: forall i int, j int :: 0 <= i && i < j && j < len(res) ==> res[i].StartTime <= res[j].StartTime
 //@   requires distinct-records: forall k1 string, k2 string :: k1 in auditInfosByID && k2 in auditInfosByID && k1 != k2 ==> auditInfosByID[k1] != auditInfosByID[k2]
 //@   modifies cells
 //@   ensures every-record-listed: forall k string :: k in auditInfosByID ==> exists j int :: 0 <= j && j < len(res) && res[j] == auditInfosByID[k]
@@ -37,6 +39,7 @@ package main
 
 //@ func mergeStringAuditInfoMaps(ms) (merged)
 //@   props C20
+//@   replay pure
 //@   modifies new(map[string]*scipipe.AuditInfo)
 //@   ensures fresh: fresh(merged)
 //@   ensures union: forall k string :: k in merged <==> exists i int :: 0 <= i && i < len(ms) && k in ms[i]
@@ -50,6 +53,7 @@ package main
 
 //@ func extractAuditInfosByID(auditInfo) (auditInfosByID)
 //@   props C20
+//@   replay pure
 //@   modifies new(map[string]*scipipe.AuditInfo)
 //@   ensures root-listed: auditInfo.ID in auditInfosByID
 //@   ensures keyed-by-id: forall k string :: k in auditInfosByID ==> auditInfosByID[k] != nil && auditInfosByID[k].ID == k
